@@ -45,6 +45,19 @@ theorem C08_denied_no_warning (ev : Ev) (cfg : Config) (pol : Policy) (e : Bool)
     (evaluateObj ev cfg pol e p enf).1.warnings = [] := by
   rw [C08_warn ev cfg pol e p enf hrc]; simp [hd]
 
+/-- **The result cache is transparent**: the evaluator runs once per *distinct* level:version among enforce (when
+    enforcing), audit, and warn (unless the request was denied), in that order and on this pod — policies that coincide share
+    one evaluation, and (C08_audit / C08_warn) what is reported is what evaluating each of them afresh would report. -/
+theorem C08_cache_calls (ev : Ev) (cfg : Config) (pol : Policy) (e : Bool) (p : PodObj) (enf : Bool)
+    (hrc : exemptRC p.runtimeClass cfg.exRuntimeClasses = false) :
+    (evaluateObj ev cfg pol e p enf).2.evalCalls =
+      (distinctInOrder ((if enf then [pol.enforce] else []) ++ [pol.audit] ++
+          (if (evaluateObj ev cfg pol e p enf).1.allowed then [pol.warn] else []))).map (fun lv => (lv, p.name)) := by
+  have := PSA.evaluatePod_calls (fun lv (x : PodObj) => ev lv x) cfg pol e ⟨p, p.runtimeClass⟩ enf hrc
+  simp only [evaluateObj]
+  rw [this]
+  rfl
+
 /-- non-vacuity: a pod that passes enforce but violates a different warn policy gets exactly one warning naming warn -/
 example (ev : Ev) (cfg : Config) (p : PodObj) (e w : LevelVersion) (hne : e ≠ w)
     (hrc : exemptRC p.runtimeClass cfg.exRuntimeClasses = false)
@@ -57,4 +70,5 @@ example (ev : Ev) (cfg : Config) (p : PodObj) (e w : LevelVersion) (hne : e ≠ 
 #print axioms C08_audit
 #print axioms C08_warn
 #print axioms C08_denied_no_warning
+#print axioms C08_cache_calls
 end PSA.Props
